@@ -66,6 +66,24 @@ impl Dump {
         }
         Ok(Dump { entries })
     }
+    /// Copy of the dump with the named attributes removed from every entry.
+    pub fn without_attrs(mut self, names: &[&str]) -> Dump {
+        for (_, j) in self.entries.values_mut() {
+            if let Some(attrs) = j.pointer_mut("/ent/V3/attrs").and_then(|a| a.as_object_mut()) {
+                for n in names {
+                    attrs.remove(*n);
+                }
+            }
+        }
+        self
+    }
+    /// Keep live and conflict entries only (what the convergence property speaks of). Recycled and
+    /// tombstoned entries move between "recycled", "tombstone" and "gone" on each replica's own
+    /// purge schedule, so they are equivalent to absent here.
+    pub fn live_and_conflict(mut self) -> Dump {
+        self.entries.retain(|_, (s, _)| matches!(s, EState::Live | EState::Conflict));
+        self
+    }
     pub fn digest(&self) -> u64 {
         let mut h = 0u64;
         for (u, (s, j)) in &self.entries {
@@ -73,6 +91,31 @@ impl Dump {
             h = h.rotate_left(5) ^ fnv64(line.as_bytes());
         }
         h
+    }
+    /// One description per differing entry (every differing attribute of an entry is listed
+    /// separately, so that a known difference cannot hide a new one).
+    pub fn diff_all(&self, other: &Dump) -> Vec<String> {
+        let mut out = vec![];
+        for (u, (s, j)) in &self.entries {
+            match other.entries.get(u) {
+                None => out.push(format!("{u} ({s:?}) only on left")),
+                Some((s2, j2)) => {
+                    if s != s2 {
+                        out.push(format!("{u} state {s:?} vs {s2:?}"));
+                    } else if j != j2 {
+                        for d in json_diff_all(j, j2, "") {
+                            out.push(format!("{u} ({s:?}) differs: {d}"));
+                        }
+                    }
+                }
+            }
+        }
+        for (u, (s, _)) in &other.entries {
+            if !self.entries.contains_key(u) {
+                out.push(format!("{u} ({s:?}) only on right"));
+            }
+        }
+        out
     }
     /// Human readable first difference between two dumps (None when equal).
     pub fn diff(&self, other: &Dump) -> Option<String> {
@@ -95,6 +138,34 @@ impl Dump {
             }
         }
         None
+    }
+}
+
+/// All leaf-level differences below the attribute level (objects are descended to depth 4).
+pub fn json_diff_all(a: &J, b: &J, path: &str) -> Vec<String> {
+    let depth = path.matches('.').count();
+    match (a, b) {
+        (J::Object(x), J::Object(y)) if depth < 4 => {
+            let mut out = vec![];
+            for (k, v) in x {
+                match y.get(k) {
+                    None => out.push(format!("{path}.{k} missing on right")),
+                    Some(v2) if v != v2 => out.extend(json_diff_all(v, v2, &format!("{path}.{k}"))),
+                    _ => {}
+                }
+            }
+            for k in y.keys() {
+                if !x.contains_key(k) {
+                    out.push(format!("{path}.{k} missing on left"));
+                }
+            }
+            out
+        }
+        _ => {
+            let (sa, sb) = (a.to_string(), b.to_string());
+            let cut = |s: &str| if s.len() > 300 { format!("{}…", s.chars().take(300).collect::<String>()) } else { s.to_string() };
+            vec![format!("{path} {} != {}", cut(&sa), cut(&sb))]
+        }
     }
 }
 
